@@ -92,7 +92,9 @@ def root_kind(c):
 # executing and comparing
 # ------------------------------------------------------------------------------------------------
 def exc_obs(e):
-    return ("EXC", type(e).__name__, str(e)[:160])
+    # numbers in messages are node ids / addresses: process-dependent, so they are masked
+    import re
+    return ("EXC", type(e).__name__, re.sub(r"\d+", "#", str(e))[:160])
 
 
 def eval_entity(q, world, inst):
